@@ -233,7 +233,28 @@ impl CVal for D2 {
     }
 }
 
-pub const NT: usize = 8;
+/// A resource type that is itself a type-erased box (the table stores `Box<dyn Resource>` around
+/// it: two layers that must never be confused). No `Default`.
+pub type BoxRes = Box<dyn Resource>;
+impl CVal for BoxRes {
+    const IDX: usize = 8;
+    fn make(v: u64) -> Self {
+        Box::new(D1::make(v))
+    }
+    fn fp(&self) -> u64 {
+        (**self).downcast_ref::<D1>().map(|d| d.v).unwrap_or(u64::MAX)
+    }
+    fn norm(v: u64) -> u64 {
+        v
+    }
+    fn serial(&self) -> u64 {
+        (**self).downcast_ref::<D1>().map(|d| d.serial).unwrap_or(0)
+    }
+}
+
+pub const NT: usize = 9;
+/// types 0..NT_DEFAULT implement `Default` (needed by `Read` / `Write` setup)
+pub const NT_DEFAULT: usize = 8;
 pub const ND: usize = 3;
 
 #[macro_export]
@@ -248,7 +269,25 @@ macro_rules! with_cty {
             5 => { type $T = $crate::props::c09::A16; $e }
             6 => { type $T = $crate::props::c09::D1; $e }
             7 => { type $T = $crate::props::c09::D2; $e }
+            8 => { type $T = $crate::props::c09::BoxRes; $e }
             _ => unreachable!("type index"),
+        }
+    };
+}
+
+/// the types with a `Default`
+macro_rules! with_cty_d {
+    ($t:expr, $T:ident => $e:expr) => {
+        match $t {
+            0 => { type $T = Z; $e }
+            1 => { type $T = B; $e }
+            2 => { type $T = Big; $e }
+            3 => { type $T = S; $e }
+            4 => { type $T = V; $e }
+            5 => { type $T = A16; $e }
+            6 => { type $T = D1; $e }
+            7 => { type $T = D2; $e }
+            _ => unreachable!("type index (default)"),
         }
     };
 }
@@ -288,6 +327,7 @@ struct H {
     replaced: bool,
     removed: bool,
     mismatched: bool,
+    leaked: bool,
 }
 
 impl H {
@@ -365,7 +405,10 @@ fn step(h: &mut H, rng: &mut Rng) -> Option<(String, String)> {
         u
     };
     let cur = h.model.get(&(t, d)).cloned();
-    let op = rng.below(20);
+    let op = rng.below(22);
+    // accessors that create a default need `Default`
+    let t = if matches!(op, 16 | 18) && t >= NT_DEFAULT { rng.below(NT_DEFAULT) } else { t };
+    let cur = if matches!(op, 16 | 18) { h.model.get(&(t, d)).cloned() } else { cur };
     let world = &mut h.world as *mut World;
     // SAFETY of the raw pointer: `h.world` is only touched through this alias inside the closures
     // below while no other borrow of it exists (needed because `expect` takes &mut h afterwards).
@@ -516,7 +559,7 @@ fn step(h: &mut H, rng: &mut Rng) -> Option<(String, String)> {
         }
         16 => {
             // setup of a default-providing accessor creates the default iff vacant
-            let r = with_cty!(t, T => guarded(|| { if rng.chance(1, 2) { w!().setup::<Read<T>>() } else { w!().setup::<Write<T>>() }; "()".into() }));
+            let r = with_cty_d!(t, T => guarded(|| { if rng.chance(1, 2) { w!().setup::<Read<T>>() } else { w!().setup::<Write<T>>() }; "()".into() }));
             h.model.entry((t, 0)).or_insert(0);
             h.expect(format!("setup::<Read|Write<T{}>>()", t), r, Ok("()".into()))
         }
@@ -527,10 +570,58 @@ fn step(h: &mut H, rng: &mut Rng) -> Option<(String, String)> {
         }
         18 => {
             // exec = setup + system_data
-            let r = with_cty!(t, T => guarded(|| w!().exec(|mut x: Write<T>| { let old = x.fp(); *x = T::make(v); format!("{}", old) })));
+            let r = with_cty_d!(t, T => guarded(|| w!().exec(|mut x: Write<T>| { let old = x.fp(); *x = T::make(v); format!("{}", old) })));
             let old = *h.model.entry((t, 0)).or_insert(0);
             h.model.insert((t, 0), norm(t, v));
             h.expect(format!("exec(|Write<T{}>| overwrite {})", t, v), r, Ok(format!("{}", old)))
+        }
+        19 | 20 if cur.is_some() => {
+            // A guard of the stored value is leaked (`mem::forget`: safe code). The value stays
+            // borrowed for good - until `insert` replaces it: the new value is a new value, nobody
+            // ever borrowed it. (Only calls whose behaviour on a leaked borrow does not depend on
+            // the build profile are made before the replacement.)
+            h.leaked = true;
+            let excl = op == 20;
+            let typed = d == 0 && rng.chance(1, 2);
+            let r = with_cty!(t, T => guarded(|| {
+                if excl {
+                    std::mem::forget(w!().try_fetch_mut_by_id::<T>(rid(t, d)));
+                } else {
+                    std::mem::forget(w!().try_fetch_by_id::<T>(rid(t, d)));
+                }
+                "()".into()
+            }));
+            let what = format!("leak a {} guard of T{}#{}", if excl { "FetchMut" } else { "Fetch" }, t, d);
+            if let Some(f) = h.expect(what, r, Ok("()".into())) {
+                return Some(f);
+            }
+            // while it is leaked: presence is unaffected, a conflicting fetch panics, a
+            // compatible one succeeds
+            let r = guarded(|| format!("{}", w!().has_value_raw(rid(t, d))));
+            if let Some(f) = h.expect(format!("has_value_raw(T{}#{}) with a leaked guard", t, d), r, Ok("true".into())) {
+                return Some(f);
+            }
+            let r = with_cty!(t, T => guarded(|| fmt_opt(w!().try_fetch_mut_by_id::<T>(rid(t, d)).map(|g| g.fp()))));
+            if let Some(f) = h.expect(format!("try_fetch_mut_by_id::<T{}>(#{}) with a leaked guard", t, d), r, Err(PanicKind::Other)) {
+                return Some(f);
+            }
+            let r = with_cty!(t, T => guarded(|| fmt_opt(w!().try_fetch_by_id::<T>(rid(t, d)).map(|g| g.fp()))));
+            let want = if excl { Err(PanicKind::Other) } else { Ok(fmt_opt(cur)) };
+            if let Some(f) = h.expect(format!("try_fetch_by_id::<T{}>(#{}) with a leaked {} guard", t, d, if excl { "exclusive" } else { "shared" }), r, want) {
+                return Some(f);
+            }
+            // insert replaces - value and borrow state
+            let r = with_cty!(t, T => guarded(|| {
+                if typed { w!().insert(T::make(v)) } else { w!().insert_by_id(rid(t, d), T::make(v)) }
+                "()".into()
+            }));
+            h.replaced = true;
+            h.model.insert((t, d), norm(t, v));
+            if let Some(f) = h.expect(format!("{}::<T{}>(#{}, {}) over the value with the leaked guard", if typed { "insert" } else { "insert_by_id" }, t, d, v), r, Ok("()".into())) {
+                return Some(f);
+            }
+            let r = with_cty!(t, T => guarded(|| fmt_opt(w!().try_fetch_mut_by_id::<T>(rid(t, d)).map(|g| g.fp()))));
+            h.expect(format!("try_fetch_mut_by_id::<T{}>(#{}) of the value inserted over the leaked one", t, d), r, Ok(fmt_opt(Some(norm(t, v)))))
         }
         _ => {
             let r = guarded(|| format!("{}", w!().has_value_raw(rid(t, d))));
@@ -541,7 +632,7 @@ fn step(h: &mut H, rng: &mut Rng) -> Option<(String, String)> {
 
 fn history(rng: &mut Rng, rep: &mut Report, case_no: u64, len: usize) {
     LEDGER.with(|l| l.borrow_mut().clear());
-    let mut h = H { world: World::empty(), model: BTreeMap::new(), log: Vec::new(), replaced: false, removed: false, mismatched: false };
+    let mut h = H { world: World::empty(), model: BTreeMap::new(), log: Vec::new(), replaced: false, removed: false, mismatched: false, leaked: false };
     rep.evaluations += 1;
     let mut hh = 0x09u64;
     let mut failure = None;
@@ -558,6 +649,9 @@ fn history(rng: &mut Rng, rep: &mut Report, case_no: u64, len: usize) {
     }
     let log = h.log.clone();
     let (replaced, removed, mismatched) = (h.replaced, h.removed, h.mismatched);
+    if h.leaked {
+        rep.metric("histories_with_a_leaked_guard", 1);
+    }
     // ---- every tracked value is dropped exactly once ----
     drop(h);
     if failure.is_none() {
